@@ -109,6 +109,9 @@ func (w *World) VerifyFunc(key string) (vc *VC, err error) {
 		if isPtrLike(p.Type()) && !nilTolerant(fn, i) && !(fc != nil && strings.Contains(" "+fc.Opts["nilable"]+" ", " "+p.Name()+" ")) {
 			vc.assume(True, Not(Eq(args[i].T, IntLit(0))))
 		}
+		if fc != nil && strings.Contains(" "+fc.Opts["nodatainv"]+" ", " "+p.Name()+" ") {
+			continue
+		}
 		for _, t := range w.dataInvTerms(args[i], fr.entry, vc) {
 			vc.assume(True, t)
 		}
